@@ -316,6 +316,30 @@ func genC10(ctx *Ctx) {
 		ctx.Count("malformed:" + why)
 		ctx.Input(mInput(bad, genVars(ctx.Rnd), sx.L(sx.S(why))), true)
 	}
+	// nested sections (depth 2 and 3, every section spelling): an inner end tag that names another variable, the outer
+	// variable, or is missing - whatever follows - must be rejected
+	opens := []string{"{{#%s}}", "{{^%s}}", "{{#if %s}}", "{{#unless %s}}", "{{{#%s}}}"}
+	for _, o1 := range opens {
+		for _, o2 := range opens {
+			for _, inner := range []string{"{{/c}}", "{{/a}}", "", "{{/B}}{{/b}}", "{{/ b c}}"} {
+				for _, tail := range []string{"{{/a}}", "{{/a}}{{/a}}", "{{/b}}{{/a}}"} {
+					if inner == "{{/a}}" && tail == "{{/a}}" { // this one is the outer end tag followed by ... itself: still malformed (b is never closed)
+					}
+					if inner == "" && tail == "{{/b}}{{/a}}" {
+						continue // well-formed
+					}
+					bad := fmt.Sprintf(o1, "a") + "p" + fmt.Sprintf(o2, "b") + "x" + inner + tail
+					ctx.Count("malformed:nested section")
+					ctx.Input(mInput(bad, genVars(ctx.Rnd), sx.L(sx.S("nested section closed by the wrong end tag"))), true)
+					if o1 == opens[0] {
+						bad3 := "{{#z}}" + bad + "{{/z}}"
+						ctx.Count("malformed:nested section")
+						ctx.Input(mInput(bad3, genVars(ctx.Rnd), sx.L(sx.S("nested section closed by the wrong end tag (depth 3)"))), true)
+					}
+				}
+			}
+		}
+	}
 	// accept / reject: concatenations of template lexemes
 	lex := []string{"{{", "}}", "{{{", "}}}", "#", "/", "^", "!", "if", "unless", "a", "B", " ", "text", "'", "\"", "{", "}", "."}
 	depth := 3
